@@ -54,7 +54,7 @@ MINIMUMS = {
 
 FNS = [kinds.node, kinds.node2, kinds.two, kinds.three, kinds.Base, kinds.Mid, kinds.Other,
        kinds.target3, kinds.DC, dup1.same, dup2.same, kinds.WithMethods.smake,
-       kinds.Float, kinds.Dict]
+       kinds.Float, kinds.Dict, kinds.DCFrozen]
 POS_FNS = [kinds.posnode, kinds.PosInit, sigs.g_ab_c_va, sigs.g_a1_b2_va_k_vk]
 LEAVES = [0, 1, -7, 2**70, 2.5, -0.5, 1e300, 'a', 'name with "quotes" and \\ backslash', '', None,
           True, False, (1, 2), (), ('x', (3, 4)), b'bytes\xff', kinds.Color.RED, kinds.Level.HIGH,
@@ -147,7 +147,8 @@ def make_names_config(rng):
   cross sub-fixture boundaries (so they become sub-fixture parameters) next to same-named complex
   expressions that variable extraction has to name."""
   fam = rng.choice([[kinds.node, kinds.node2, kinds.three], [kinds.Base, kinds.Other, kinds.Mid],
-                    [kinds.node, kinds.three, kinds.Base, kinds.Other]])
+                    [kinds.node, kinds.three, kinds.Base, kinds.Other],
+                    [kinds.DCFrozen, kinds.DC, kinds.three]])
   small = [0, 1, 'a', None, (1, 2)]
 
   def names(fn):
@@ -439,6 +440,8 @@ def present_features(root, opt):
     f.append('partial')
   if any(isinstance(n, gen.B) and n.fn is dict for n in nodes):
     f.append('builtin-callable')
+  if any(isinstance(n, gen.B) and n.fn is kinds.DCFrozen for n in nodes):
+    f.append('frozen-dataclass-callable')
   if any((isinstance(n, gen.B) and n.fn in (kinds.Float, kinds.Dict)) or
          (isinstance(n, gen.Leaf) and n.value in (float, dict, int, list)) for n in nodes):
     f.append('builtin-names')
@@ -479,6 +482,15 @@ def _rm_builtin_callable(root):
   return ch
 
 
+def _rm_frozen(root):
+  ch = False
+  for n in gen.walk(root):
+    if isinstance(n, gen.B) and n.fn is kinds.DCFrozen:
+      n.fn = kinds.DC
+      ch = True
+  return ch
+
+
 def _rm_builtin_names(root):
   ch = False
   for n in gen.walk(root):
@@ -494,6 +506,7 @@ def _rm_builtin_names(root):
 
 CONFIG_FEATURES = [
     ('builtin-callable', _rm_builtin_callable), ('builtin-names', _rm_builtin_names),
+    ('frozen-dataclass-callable', _rm_frozen),
     ('special-leaf', _rm_special), ('named-tuple', _rm_named_tuple), ('tagged-value', _rm_tagged_value),
     ('tags', _rm_tags), ('positional', _rm_positional), ('arg-factory', _rm_btype('ArgFactory')),
     ('partial', _rm_btype('Partial')), ('sharing', _rm_sharing), ('same-name-symbols', _rm_dup),
